@@ -77,11 +77,39 @@ class Gen:
                     return self.rng.choice(anyn)       # name of an element of another class
         if r < 0.15:
             return self.fresh(p) + self.rng.choice(['-a', '.b', '_c', '-1'])
+        if cls == O.NODE and 0.88 < r <= 0.96 and 'strand' not in self.avoid:
+            # names that contain the separator the code itself uses to derive names: node 'aa-bb' + NIC 'cc' and node
+            # 'aa' + NIC 'bb-cc' derive the same service-port and link names (see op_add_component / op_connect)
+            used = set(n[3] for n in self.g.nodes)
+            free = [x for x in self.DASH_NODES if x not in used]
+            if free:
+                return free[0]
         if cls == O.NODE and r > 0.96 and 'strand' not in self.avoid:
             # a long (valid) node name: with a component name chosen below the derived service-port name
             # <node>-<comp>-p1 stays valid while the derived link name <...>-link is too long
             return (self.fresh(p) + 'L' * 200)[:200]
         return self.fresh(p)
+
+    DASH_NODES = ('aa-bb', 'aa', 'aa-bb-cc', 'aa-bb.x')
+
+    def derived(self, i):
+        """the name connect_interface derives for the service port of interface i: <owner node>-<interface>"""
+        g = self.g
+        j, seen = i, 0
+        while g.typ(j) == 'SubInterface' and seen < 4:
+            ps = [k for k in g.nb(j, 'connects', O.CP) if g.typ(k) != 'SubInterface']
+            if len(ps) != 1:
+                return None
+            j, seen = ps[0], seen + 1
+        ss = g.nb(j, 'connects', O.NS)
+        if len(ss) != 1:
+            return None
+        o = g.has_owner(ss[0])
+        if len(o) == 1 and g.cls(o[0]) == O.COMP:
+            o = g.has_owner(o[0])
+        if len(o) != 1 or g.name(o[0]) is None or g.name(i) is None:
+            return None
+        return g.name(o[0]) + '-' + g.name(i)
 
     def ids(self, cls, pred=None):
         return [n[0] for n in self.g.nodes if n[1] == cls and (pred is None or pred(n))]
@@ -141,6 +169,13 @@ class Gen:
         sib = [self.g.name(c) for c in self.g.nb(n, 'has', O.COMP) if self.g.name(c)]
         if sib and self.rng.random() < 0.12:
             name = self.rng.choice(sib)        # sibling name: must be refused
+        dashn = [x for x in nodes if self.g.name(x) in self.DASH_NODES and not self.g.nb(x, 'has', O.COMP)]
+        if dashn and not longn:
+            n = dashn[0]
+            ct, model = self.rng.choice([c for c in COMP_MODELS if NIFS.get(c[0], 0)])
+            if self.flavour == 'sub' or ns_id is not None:
+                ns_id, if_ids = self.fresh('s'), [self.fresh('i') for _ in range(NIFS.get(ct, 0))]
+            name = {'aa-bb': 'cc', 'aa': 'bb-cc', 'aa-bb-cc': 'dd', 'aa-bb.x': 'cc'}[self.g.name(n)]
         nn = self.g.name(n) or ''
         if len(nn) >= 150 and len(name) < 20:
             name = (name + 'M' * 100)[:247 - len(nn)]      # <node>-<comp>-p1 is 251 characters long
@@ -278,6 +313,11 @@ class Gen:
         if len(top) >= 2 and self.rng.random() < 0.08 and 'strand' not in self.avoid:
             a, b = self.rng.sample(top, 2)
             name = self.g.name(a) + '-' + self.g.name(b) + '-link'     # the name peer(a, b) derives for its link
+        elif 'strand' not in self.avoid and self.rng.random() < 0.08:
+            un = [self.derived(i) for i in self.node_ifaces() if not self.connected(i)]
+            un = [d for d in un if d and len(d) < 60]
+            if un:
+                name = self.rng.choice(un) + '-link'                   # the name connect_interface will derive for a link
         ifs = pool[:k]
         if 'strand' not in self.avoid and self.rng.random() < 0.07:
             other = [n[0] for n in self.g.nodes if n[1] != O.CP]
@@ -305,6 +345,25 @@ class Gen:
             top = ss
         if not top or not pool:
             return None
+        if 'strand' not in self.avoid and len(top) >= 1:
+            # an unconnected interface whose derived port name is already carried by a service port of ANOTHER service,
+            # or whose derived link name is carried by a link: connect it (to a service that has no such port)
+            taken = {}
+            for sp in g.ids(O.CP):
+                if g.typ(sp) == 'ServicePort' and g.name(sp):
+                    taken.setdefault(g.name(sp), set()).update(g.nb(sp, 'connects', O.NS))
+            lnames = set(g.name(l) for l in g.ids(O.LINK))
+            for i in pool:
+                d = self.derived(i)
+                if d is None:
+                    continue
+                if d in taken or (d + '-link') in lnames:
+                    cand = [s for s in top if s not in taken.get(d, ())]
+                    if cand and self.rng.random() < 0.8:
+                        return ['connect', self.rng.choice(cand), i]
+            dash = [i for i in pool if (self.derived(i) or '').startswith('aa')]
+            if dash and self.rng.random() < 0.6:
+                return ['connect', self.rng.choice(top), self.rng.choice(dash)]
         longs = [i for i in pool if len(g.name(i) or '') >= 40]
         if longs and self.rng.random() < 0.5:
             pool = longs        # the derived link name is too long: the call fails after the port was made
